@@ -383,6 +383,8 @@ func Run(run *ev.Run) {
 		run.Require("decodes."+rk.name, 200)
 	}
 	run.Require("failed_decodes_interleaved", 100)
+	exclusionProbe(run)
+	run.Require(GENERATION+".exclusion_probe_decodes", 1000)
 }
 
 // malformedDoc is a JSON document for the record that holds a value of the wrong JSON type in its first required field
